@@ -10,6 +10,7 @@ import (
 	"github.com/gopher-fleece/gleece/v2/core/metadata"
 	"github.com/gopher-fleece/gleece/v2/core/validators/diagnostics"
 	"github.com/gopher-fleece/gleece/v2/definitions"
+	"github.com/iancoleman/strcase"
 )
 
 type funcParamEx struct {
@@ -261,6 +262,25 @@ func (v ReceiverValidator) validateParamsCombinations(
 			newParam.Range,
 		)
 		return &diag
+	}
+
+	// The generated handlers declare their per-parameter locals under the lower camel case form of the parameter's name.
+	// Two parameters that share that form (e.g. 'Value' and 'value', 'a_b' and 'aB') would yield code that does not compile.
+	for _, existing := range funcParams {
+		if strcase.ToLowerCamel(existing.Name) == strcase.ToLowerCamel(newParam.Name) {
+			diag := diagnostics.NewErrorDiagnostic(
+				newParam.FVersion.Path,
+				fmt.Sprintf(
+					"Parameter '%s' is invalid, its name collides with parameter '%s' in the generated code (both become '%s')",
+					newParam.Name,
+					existing.Name,
+					strcase.ToLowerCamel(newParam.Name),
+				),
+				diagnostics.DiagReceiverParamNameCollision,
+				newParam.Range,
+			)
+			return &diag
+		}
 	}
 
 	return nil
